@@ -106,7 +106,9 @@ def run(tier, wd):
     fam = nested_family(p, 150 if q else 1500, rnd)
     envsets = [list(c) for n in range(5) for c in itertools.combinations(keys, n)]
     for s in fam:
-        lines = [[], ["x"], ["--"], ["-z"], ["x", "y", "x", "y", "x", "y", "x", "y"], ["x", "y"] * 6, ["-a", "-b", "-ov"] * 7 + ["x", "y"], ["-a", "-b", "-ab", "-ba", "-a"], ["--", "--", "-a"], ["-ov", "-o", "v", "x"]]
+        lines = [[], ["x"], ["--"], ["-z"], ["x", "y", "x", "y", "x", "y", "x", "y"], ["x", "y"] * 6, ["-a", "-b", "-ov"] * 7 + ["x", "y"], ["-a", "-b", "-ab", "-ba", "-a"], ["--", "--", "-a"], ["-ov", "-o", "v", "x"],
+                 # empty and one-character items, a dash, an equals sign alone
+                 [""], ["", "x"], ["x", ""], ["-a", "", "-b"], ["--", ""], ["-"], ["="], ["-o", ""], ["-o="], ["--="], ["-=", "x"]]
         for _ in range(4 if q else 8):
             items = g.sample_items(p, s["ast"], rnd)
             if rnd.random() < 0.5:
